@@ -210,7 +210,7 @@ func init() {
 		{Name: "c08-engine-outputs", StageRefs: 30, PSimple: 40, PluginArith: true, StructRefs: true, MinSteps: 1, MaxSteps: 4, Durs: []int64{0, 5, 50}, Modes: allBad, PBad: 60, PDeployFail: 30, PDisabled: 40, ErrOutput: true, MaxOutputs: 3, PErrPathRef: 50, PWaitFor: 20},
 		{Name: "c08-stage-objects", MinSteps: 2, MaxSteps: 3, Durs: []int64{0, 5}, Modes: []string{"err"}, PBad: 45, PSimple: 70, StageRefs: 80, PDisabled: 15, MaxOutputs: 1},
 		{Name: "c08-loops", ItemsFromStep: 30, MinSteps: 1, MaxSteps: 3, Durs: []int64{0, 5}, Foreach: 70, Modes: []string{"err", "alt"}, PBad: 40, ErrOutput: true, MaxOutputs: 2},
-		{Name: "c08-tags", Tags: true, MinSteps: 2, MaxSteps: 4, Durs: []int64{0, 5}, Modes: []string{"err"}, PBad: 25, PDisabled: 30, MaxOutputs: 1},
+		{Name: "c08-tags", OptionalRequired: 20, Tags: true, MinSteps: 2, MaxSteps: 4, Durs: []int64{0, 5}, Modes: []string{"err"}, PBad: 25, PDisabled: 30, MaxOutputs: 1},
 		{Name: "c08-plain", HeteroList: 12, PluginArith: true, MinSteps: 1, MaxSteps: 5, Durs: someDurs, PWaitFor: 40, DeepExpr: true, MaxOutputs: 2},
 	}
 	register(&PropDef{ID: "C08",
